@@ -1250,6 +1250,13 @@ func (rn *smRunner) run(b smBehaviour) {
 						fmt.Sprintf("a %s for %v/%v was released to the mirror without a matching action store record", m["kind"], m["h"], m["r"]))
 				}
 				outs = append(outs, m)
+				if (s.Op == "Boot" || s.Op == "Restart") && m["kind"] == "proposal" {
+					// the recorded proposal that a restarted state machine sends again reaches the mirror: the mirror's
+					// view of that round (played by this harness) holds it from now on, as the model assumes
+					if l := fmt.Sprint(m["target"]); toU64(m["h"]) == curView.H && uint32(toU64(m["r"])) == curView.R && !contains(curView.Phs, l) {
+						curView.Phs = append(curView.Phs, l)
+					}
+				}
 			}
 		}
 
